@@ -78,9 +78,13 @@ def sortTs : List (Nat × Nat) → List (Nat × Nat)
   | [] => []
   | x :: xs => insertTs x (sortTs xs)
 
+/-- a directory entry of the sink's own timestamped name space: (timestamp, inode) -/
+def tsOf (x : Name × Nat) : Option (Nat × Nat) := match x.1 with | .ts n => some (n, x.2) | _ => none
+
+def isTs (n : Name) : Bool := match n with | .ts _ => true | _ => false
+
 /-- names of the sink's own timestamped files, oldest first (the sorted glob of `pruneFiles`) -/
-def tsFiles (d : List (Name × Nat)) : List (Nat × Nat) :=
-  sortTs (d.filterMap (fun x => match x.1 with | .ts n => some (n, x.2) | _ => none))
+def tsFiles (d : List (Name × Nat)) : List (Nat × Nat) := sortTs (d.filterMap tsOf)
 
 /-- `pruneFiles()`: remove the oldest timestamped files beyond MaxFiles -/
 def prune (c : Cfg) (s : St) : St :=
@@ -89,7 +93,7 @@ def prune (c : Cfg) (s : St) : St :=
     let files := tsFiles s.dir
     let stale := files.take (files.length - c.maxFiles)
     let gone := stale.map (·.2)
-    { s with dir := s.dir.filter (fun x => !(gone.contains x.2 && (match x.1 with | .ts _ => true | _ => false))),
+    { s with dir := s.dir.filter (fun x => !(gone.contains x.2 && isTs x.1)),
              inodes := s.inodes.filter (fun x => !gone.contains x.id),
              removed := s.removed ++ s.inodes.filter (fun x => gone.contains x.id) }
 
